@@ -79,8 +79,14 @@ def r06_2(rep, M, rid):
     fn = M.func(GS)
     fl = Flow(fn)
     ranked = 0
+    # the ranking loops are the loops whose targets form the key (letter, element) of the candidates' count lookup
+    keys = [c.args[0] for c in ast.walk(fn) if isinstance(c, ast.Call) and isinstance(c.func, ast.Attribute) and c.func.attr == "get" and len(c.args) == 1
+            and isinstance(c.args[0], ast.Tuple) and len(c.args[0].elts) == 2 and all(isinstance(e, ast.Name) for e in c.args[0].elts)
+            and isinstance(c.func.value, ast.Subscript) and isinstance(c.func.value.slice, ast.Constant) and c.func.value.slice.value == "wyckoff_positions"]
+    keyvars = {e.id for k in keys for e in k.elts}
     for s in ast.walk(fn):
-        if isinstance(s, ast.For) and isinstance(s.iter, ast.Name) and s.iter.id in ("wyckoff_letters", "atomic_numbers"):
+        if isinstance(s, ast.For) and isinstance(s.target, ast.Name) and s.target.id in keyvars and isinstance(s.iter, ast.Name) \
+                and any(any(k is x for x in ast.walk(s)) for k in keys):
             at = fl.node_of(s)
             defs = fl.rd[at].get(s.iter.id, ())
             ok = defs and all(d != fl.cfg.entry and all(k == "expr" and isinstance(v, ast.Call) and isinstance(v.func, ast.Name) and v.func.id == "sorted"
@@ -88,9 +94,10 @@ def r06_2(rep, M, rid):
             if ok:
                 ranked += 1
                 rep.ok(rid, f"ranking loop over `{s.iter.id}` iterates a sorted() result")
-            elif any(isinstance(x, ast.Break) for x in ast.walk(s)) or s.iter.id == "atomic_numbers":
+            else:
                 rep.violation(rid, f"ranking loop over `{s.iter.id}`", "the ranking order is not fixed by sorted(...): letters must be visited "
                               "alphabetically and atomic numbers ascending for the choice to be canonical", M.where(GS, s))
+                ranked += 1
     if ranked < 2:
         raise AnalysisError(f"_find_wyckoff_ground_state: expected the two ranking loops over sorted letters / atomic numbers, recognised {ranked}")
     # final order of the reported sets
